@@ -30,6 +30,19 @@ pub(crate) mod verif_file {
         String::from("127.0.0.1:1")
     }
 
+    /// udp_socket_addr() formats "{interface}:{port}" and parses it back; the address parser is not
+    /// the subject and costs CBMC minutes: any text parses to a fixed address
+    pub fn stub_socketaddr_from_str(_s: &str) -> Result<std::net::SocketAddr, std::net::AddrParseError> {
+        Ok(std::net::SocketAddr::from(([127, 0, 0, 1], 1)))
+    }
+
+    /// The seed text is not the subject of these harnesses; decoding 64 hex characters forces an
+    /// unwind bound of ~70, and CBMC then also unwinds the recursive drop glue of std::io::Error that
+    /// deep (no result in 900 s).  Any text decodes to bytes of half its length.
+    pub fn stub_hex_decode(_e: &data_encoding::Encoding, input: &[u8]) -> Result<Vec<u8>, data_encoding::DecodeError> {
+        Ok(vec![0u8; input.len() / 2])
+    }
+
     /// which: 0 port, 1 batch_size, 2 status_interval, 3 health_check_port, 4 fault_percentage, 5 num_workers
     const KEYS: [&str; 6] = ["port", "batch_size", "status_interval", "health_check_port", "fault_percentage", "num_workers"];
     const DEFAULTS: [i64; 6] = [8686, 32, 100, 8000, 5, 3];
@@ -69,42 +82,34 @@ pub(crate) mod verif_file {
         }
     }
 
+    /// Loader obligation: if FileConfig::new accepts the document, every setting it reports is
+    /// exactly the value written (no narrowing, no default, no other field), and a value inside the
+    /// documented range is accepted.  (Calling is_valid_config on the loaded object as well makes CBMC
+    /// explore the persistence-directory branch -- file system calls and io::Error drop glue -- because
+    /// after the loader's key matching every field is an if-then-else term; the range obligation is
+    /// therefore checked separately on MemoryConfig by c16_valid.)
     pub fn file_body(which: usize) {
         let v = vany_i64();
         let mut values = DEFAULTS;
         values[which] = v;
         let r = load(&values);
-        let accepted = match &r {
-            Ok(cfg) => is_valid_config(cfg),
-            Err(_) => false,
-        };
-        vcover!(accepted, "COVER:start-accepted");
-        vcover!(!accepted, "COVER:start-refused");
-        if let (true, Ok(cfg)) = (accepted, &r) {
-            let effective: i128 = match which {
-                0 => cfg.port() as i128,
-                1 => cfg.batch_size() as i128,
-                2 => cfg.status_interval().as_secs() as i128,
-                3 => cfg.health_check_port().map(|p| p as i128).unwrap_or(-1),
-                4 => cfg.fault_percentage() as i128,
-                _ => cfg.num_workers() as i128,
-            };
-            vassert!(effective == v as i128, "VERIF:C16:effective-setting-equals-the-value-written-in-the-file");
-            let in_range = match which {
-                0 => v >= 1 && v <= 65535,
-                1 => v >= 1 && v <= 64,
-                4 => v >= 0 && v <= 50,
-                5 => v >= 1,
-                _ => true,
-            };
-            vassert!(in_range, "VERIF:C16:out-of-range-value-refused");
-            // the settings that were not varied keep their written values too
-            vassert!(which == 0 || cfg.port() == 8686, "VERIF:C16:other-settings-unaffected");
-            vassert!(which == 1 || cfg.batch_size() == 32, "VERIF:C16:other-settings-unaffected");
-            vassert!(which == 4 || cfg.fault_percentage() == 5, "VERIF:C16:other-settings-unaffected");
-            vassert!(which == 5 || cfg.num_workers() == 3, "VERIF:C16:other-settings-unaffected");
+        vcover!(r.is_ok(), "COVER:start-accepted");
+        vcover!(r.is_err(), "COVER:start-refused");
+        if let Ok(cfg) = &r {
+            let got: [i128; 6] = [
+                cfg.port() as i128,
+                cfg.batch_size() as i128,
+                cfg.status_interval().as_secs() as i128,
+                cfg.health_check_port().map(|p| p as i128).unwrap_or(-1),
+                cfg.fault_percentage() as i128,
+                cfg.num_workers() as i128,
+            ];
+            let mut i = 0;
+            while i < 6 {
+                vassert!(got[i] == values[i] as i128, "VERIF:C16:effective-setting-equals-the-value-written-in-the-file");
+                i += 1;
+            }
         }
-        // in-range values must not be refused
         let must_accept = match which {
             0 => v >= 1 && v <= 65535,
             1 => v >= 1 && v <= 64,
@@ -113,19 +118,59 @@ pub(crate) mod verif_file {
             4 => v >= 0 && v <= 50,
             _ => v >= 1 && v <= 1024,
         };
-        vassert!(!must_accept || accepted, "VERIF:C16:documented-in-range-value-accepted");
+        vassert!(!must_accept || r.is_ok(), "VERIF:C16:documented-in-range-value-accepted-by-the-loader");
         core::mem::forget(r);
+    }
+
+    /// Range obligation: is_valid_config accepts exactly the documented ranges (port != 0,
+    /// batch_size 1..=64, fault_percentage 0..=50, num_workers >= 1) -- on a MemoryConfig whose four
+    /// range-documented settings are arbitrary.
+    pub fn valid_body() {
+        let cfg = crate::config::MemoryConfig {
+            port: vany_u16(),
+            interface: "127.0.0.1".to_string(),
+            seed: vec![0u8; 32],
+            batch_size: vany_u8(),
+            status_interval: Duration::from_secs(600),
+            kms_protection: KmsProtection::Plaintext,
+            health_check_port: None,
+            client_stats: false,
+            fault_percentage: vany_u8(),
+            num_workers: vany_usize(),
+        };
+        let want = cfg.port != 0
+            && cfg.batch_size >= 1 && cfg.batch_size <= 64
+            && cfg.fault_percentage <= 50
+            && cfg.num_workers >= 1;
+        let got = is_valid_config(&cfg);
+        vcover!(got, "COVER:start-accepted");
+        vcover!(!got, "COVER:start-refused");
+        vassert!(got == want, "VERIF:C16:configuration-accepted-iff-every-setting-is-in-its-documented-range");
+        core::mem::forget(cfg);
+    }
+
+    //@ family c16_valid props=C16 mode=panics-ok mod=config::file::verif_file must_cover=COVER:start-accepted,COVER:start-refused timeout=900
+    //@ harness c16_valid_ranges tier=quick shape="is_valid_config on a MemoryConfig: port any u16, batch_size any u8, fault_percentage any u8, num_workers any usize"
+    #[cfg_attr(kani, kani::proof)]
+    #[cfg_attr(kani, kani::unwind(12))]
+    #[cfg_attr(kani, kani::stub(alloc::fmt::format, crate::config::file::verif_file::stub_format))]
+    #[cfg_attr(kani, kani::stub(<std::net::SocketAddr as std::str::FromStr>::from_str, crate::config::file::verif_file::stub_socketaddr_from_str))]
+    #[cfg_attr(not(kani), test)]
+    fn c16_valid_ranges() {
+        valid_body();
     }
 
     macro_rules! c16_file {
         ($name:ident, $which:expr) => {
             #[cfg_attr(kani, kani::proof)]
-            #[cfg_attr(kani, kani::unwind(70))]
+            #[cfg_attr(kani, kani::unwind(12))]
+            #[cfg_attr(kani, kani::stub(data_encoding::Encoding::decode, crate::config::file::verif_file::stub_hex_decode))]
             #[cfg_attr(kani, kani::stub(std::fs::File::open, crate::config::file::verif_file::stub_file_open))]
             #[cfg_attr(kani, kani::stub(<std::fs::File as std::io::Read>::read_to_string, crate::config::file::verif_file::stub_read_to_string))]
             #[cfg_attr(kani, kani::stub(<std::os::fd::OwnedFd as std::ops::Drop>::drop, crate::config::file::verif_file::stub_ownedfd_drop))]
             #[cfg_attr(kani, kani::stub(std::thread::available_parallelism, crate::config::file::verif_file::stub_available_parallelism))]
             #[cfg_attr(kani, kani::stub(alloc::fmt::format, crate::config::file::verif_file::stub_format))]
+            #[cfg_attr(kani, kani::stub(<std::net::SocketAddr as std::str::FromStr>::from_str, crate::config::file::verif_file::stub_socketaddr_from_str))]
             #[cfg_attr(not(kani), test)]
             fn $name() {
                 file_body($which);
